@@ -13,6 +13,7 @@ import NumqiProofs.MatrixSpaceTables5
 import NumqiProofs.MatrixSpaceCombos
 import NumqiProofs.MatrixSpaceLevel2
 import NumqiProofs.MatrixSpaceTripartite
+import NumqiProofs.MatrixSpaceOrth
 import NumqiModel.Generated.Thresholds20
 import Mathlib.Data.List.Sort
 import Mathlib.Data.Real.Basic
@@ -494,6 +495,69 @@ theorem gram_has_kernel {F : Type} [CommRing F] [StarRing F] {ι κ : Type} [Fin
   gram_kernel_of_relation v d hrel β
 
 end tripartite
+
+/-! ## 9. `get_matrix_orthogonal_basis`: the three claims of the property from the `svd` / `eigh` contracts -/
+
+section orth
+
+/-- **`eigh` contract ⇒ complement ⟂ basis**: for orthonormal rows `V`, an eigenvector of `1 - VᵀV̄` for the eigenvalue 1
+(a column of `EVC[:, N0:]`) is orthogonal to every row of `V` (`get_vector_orthogonal_basis`, `_misc.py:72-73`). -/
+theorem complement_orth_of_eigen {F : Type} [Field F] [StarRing F] {L k : ℕ} (V : Fin k → Fin L → F)
+    (hV : ∀ i j, dotS (V i) (V j) = if i = j then 1 else 0) (w : Fin L → F)
+    (heig : ∀ p, w p - ∑ j, V j p * dotS (V j) w = w p) (l : Fin k) : dotS (V l) w = 0 :=
+  MatrixSpace.complement_orth_of_eigen V hV w heig l
+
+/-- **every branch**: if the map `Φ` from coordinate rows back to matrices is linear over the base field and multiplies inner
+products by `κ`, then from the `svd` contract (rows `V` orthonormal, same span as the coordinate rows `X` of the input) and the
+`eigh` contract (`W ⟂ V`): (1) the returned basis is mutually orthogonal with common squared norm `κ`; (2) it spans exactly the
+span of the input; (3) the returned complement is orthogonal to the basis and to the input.  (`dims_add_up` is the count.)
+For the Gell-Mann branches (`R_T`, `C_T`, `C_H`, `R_cT`) `Φ` is `gellmann_basis_to_matrix` after the zero-block embedding
+(`symSelect_symEmbed`, `symEmbed_symSelect`: mutually inverse, the embedding only inserts zeros) with `κ = 2`
+(C16 `parseval_half` + `analysis_synthesis`), `κ = 4` after the block form. -/
+theorem orth_basis_claims {F : Type} [Field F] [StarRing F] {E : Type} [AddCommGroup E] [Module F E] {L N0 k c : ℕ}
+    (ip : E → E → F) (Φ : (Fin L → F) →ₗ[F] E) (κ : F) (hiso : ∀ x y, ip (Φ x) (Φ y) = κ * dotS x y)
+    (X : Fin N0 → Fin L → F) (V : Fin k → Fin L → F) (W : Fin c → Fin L → F)
+    (hV : ∀ i j, dotS (V i) (V j) = if i = j then 1 else 0)
+    (hspan : Submodule.span F (Set.range V) = Submodule.span F (Set.range X))
+    (hWV : ∀ i j, dotS (W i) (V j) = 0) :
+    (∀ i j, ip (Φ (V i)) (Φ (V j)) = if i = j then κ else 0)
+    ∧ Submodule.span F (Set.range fun i => Φ (V i)) = Submodule.span F (Set.range fun i => Φ (X i))
+    ∧ (∀ i j, ip (Φ (W i)) (Φ (V j)) = 0) ∧ (∀ i j, ip (Φ (W i)) (Φ (X j)) = 0) :=
+  MatrixSpace.orth_basis_claims ip Φ κ hiso X V W hV hspan hWV
+
+/-- **branches `R` and `C`** (`x.reshape(N1,N2)`, any field: ℝ or ℂ): orthonormal basis (`κ = 1`), same span, orthogonal complement -/
+theorem orth_basis_R_C {F : Type} [Field F] [StarRing F] {m n N0 k c : ℕ}
+    (X : Fin N0 → Fin (m * n) → F) (V : Fin k → Fin (m * n) → F) (W : Fin c → Fin (m * n) → F)
+    (hV : ∀ i j, dotS (V i) (V j) = if i = j then 1 else 0)
+    (hspan : Submodule.span F (Set.range V) = Submodule.span F (Set.range X))
+    (hWV : ∀ i j, dotS (W i) (V j) = 0) :
+    (∀ i j, frob (reshapeL m n (V i)) (reshapeL m n (V j)) = if i = j then 1 else 0)
+    ∧ Submodule.span F (Set.range fun i => reshapeL m n (V i)) = Submodule.span F (Set.range fun i => reshapeL m n (X i))
+    ∧ (∀ i j, frob (reshapeL m n (W i)) (reshapeL m n (V j)) = 0)
+    ∧ (∀ i j, frob (reshapeL m n (W i)) (reshapeL m n (X j)) = 0) :=
+  MatrixSpace.orth_basis_claims (E := Fin m → Fin n → F) (frob (m := m) (n := n)) (reshapeL m n) 1
+    (fun x y => reshapeL_iso x y) X V W hV hspan hWV
+
+/-- **branch `R_c`** (complex matrices over ℝ, returned in the `np.block([[r,-i],[i,r]])` form built by the model's
+`rcUnflatten` / `blockRealify`): mutually orthogonal with the common squared norm 2, same span, orthogonal complement -/
+theorem orth_basis_R_c {N1 N2 N0 k c : ℕ}
+    (X : Fin N0 → Fin (N1 * (N2 + N2)) → ℝ) (V : Fin k → Fin (N1 * (N2 + N2)) → ℝ) (W : Fin c → Fin (N1 * (N2 + N2)) → ℝ)
+    (hV : ∀ i j, dotS (V i) (V j) = if i = j then 1 else 0)
+    (hspan : Submodule.span ℝ (Set.range V) = Submodule.span ℝ (Set.range X))
+    (hWV : ∀ i j, dotS (W i) (V j) = 0) :
+    (∀ i j, frob (realifyL N1 N2 (V i)) (realifyL N1 N2 (V j)) = if i = j then 2 else 0)
+    ∧ Submodule.span ℝ (Set.range fun i => realifyL N1 N2 (V i)) = Submodule.span ℝ (Set.range fun i => realifyL N1 N2 (X i))
+    ∧ (∀ i j, frob (realifyL N1 N2 (W i)) (realifyL N1 N2 (V j)) = 0)
+    ∧ (∀ i j, frob (realifyL N1 N2 (W i)) (realifyL N1 N2 (X j)) = 0) :=
+  MatrixSpace.orth_basis_claims (E := Fin (N1 + N1) → Fin (N2 + N2) → ℝ) (frob (m := N1 + N1) (n := N2 + N2)) (realifyL N1 N2) 2
+    (fun x y => realifyL_iso x y) X V W hV hspan hWV
+
+/-- `realifyL` is the model's code path: its entries are `blockRealify ∘ rcUnflatten` of the coordinate row -/
+theorem realifyL_apply {N1 N2 : ℕ} (x : Fin (N1 * (N2 + N2)) → ℝ) (p : Fin (N1 + N1)) (q : Fin (N2 + N2)) :
+    realifyL N1 N2 x p q
+      = blockRealify N1 N2 (rcUnflatten N1 N2 (List.ofFn x)).1 (rcUnflatten N1 N2 (List.ofFn x)).2 p.val q.val := rfl
+
+end orth
 
 /-! ## non-vacuity -/
 
